@@ -32,6 +32,8 @@ type C10World struct {
 	// Pokes: DMA / bank switching - the host changes memory contents behind the CPU's back between two
 	// Steps (not through cpu.Memory.Set). The CPU must see whatever memory returns afterwards.
 	Pokes []C10Poke `json:"pokes,omitempty"`
+	// NilIO: no I/O device attached (cpu.IO == nil)
+	NilIO bool `json:"nil_io,omitempty"`
 }
 
 // C10Poke is one host write into the memory image before Step At.
@@ -100,6 +102,7 @@ func c10World(r *world.Rng, steps int) C10World {
 				ev.OnRet = true
 			case 1, 2:
 				ev.AtTick = uint64(r.Range(1, 3*steps))
+				ev.Force = r.Chance(1, 4)
 			default:
 				ev.Boundary = r.Intn(steps)
 			}
@@ -146,8 +149,11 @@ func (c10) Gen(r *world.Rng, tier string, n int) interface{} {
 	sc := &C10Sc{}
 	if strings.HasSuffix(tier, "-race") {
 		sc.Mode = "free"
+		nilIO := r.Chance(1, 4)
 		for i := r.Range(2, 16); i > 0; i-- {
-			sc.Worlds = append(sc.Worlds, c10World(r, r.Range(200, 3000)))
+			w := c10World(r, r.Range(200, 3000))
+			w.NilIO = nilIO
+			sc.Worlds = append(sc.Worlds, w)
 		}
 		sc.UseRun = r.Bool()
 		return sc
@@ -165,8 +171,11 @@ func (c10) Gen(r *world.Rng, tier string, n int) interface{} {
 		return sc
 	}
 	sc.Mode = "interleave"
+	nilIO := r.Chance(1, 4)
 	for i := r.Pick(2, 2, 3, 4, 8, 16); i > 0; i-- {
-		sc.Worlds = append(sc.Worlds, c10World(r, r.Range(30, 400)))
+		w := c10World(r, r.Range(30, 400))
+		w.NilIO = nilIO // several CPUs without a device of their own: nothing may stand in for it that they share
+		sc.Worlds = append(sc.Worlds, w)
 	}
 	sc.Picks = r.Bytes(r.Range(8, 64))
 	return sc
@@ -187,6 +196,9 @@ func c10Machine(w *C10World) *world.Machine {
 			fillMem(&m.Bus.Mem, w.MemSeed)
 		}
 		m.Bus.Load(w.Patch)
+	}
+	if w.NilIO {
+		m.CPU.IO = nil
 	}
 	return m
 }
